@@ -6,7 +6,7 @@ from fractions import Fraction
 EXPLANATION = ('C12: zernike_compose / zernike_fit / zernike_remove with symbolic coefficient vectors and symbolic OPD samples on concrete masks '
                '(the basis and its pseudo-inverse are the real numpy results, as at a C boundary); obligations are linear real arithmetic with a 1e-9 tolerance for the float weights.')
 BOUNDS = {
-    'quick': 'masks: circular, hexagon-like, two-island, off-centre on arrays 5x5..7x7 (even and odd); every ordered subset of <= 3 modes from Noll 1..6 with condition number < 1e8 (sampled 260); normalize T/F; default and caller-supplied (rho, theta); masks binary, weighted or with entries of either sign; mask array refilled in place in a quarter of the configurations',
+    'quick': 'masks: circular, hexagon-like, two-island, off-centre on arrays 5x5..7x7 (even and odd); every ordered subset of <= 3 modes from Noll 1..6 with condition number < 1e8 (sampled 260); normalize T/F; default and caller-supplied (rho, theta); masks binary, weighted or with entries of either sign; mask array refilled in place in a quarter of the configurations; modes {1,4,11} in coordinates scaled by 1/8 (condition number ~5e4)',
     'thorough': 'arrays up to 9x9; ordered subsets of <= 4 modes from Noll 1..11 (sampled 600)',
 }
 ASSUMPTIONS = ['|coefficient| <= 1 and |opd sample| <= 1 (scale of the 1e-9 tolerance)', 'mode sets whose basis is ill-conditioned on the mask (cond >= 1e8) are skipped: the property presupposes linear independence']
